@@ -950,3 +950,31 @@ Definition struct_ok (sch : schema) (tn : string) (kinds : list (string * kkind)
 (* a shipped template by file name; a missing one is a template that never renders *)
 Definition lookup_tmpl (tbl : list (string * tmpl)) (name : string) : tmpl :=
   match assoc name tbl with Some t => t | None => [NOther "no such template"] end.
+
+(* ------------------------------------------------------------------------------------------ *)
+(* Which template a module executes (Coordinator.Configure, coordinator.go:157-236)            *)
+(* ------------------------------------------------------------------------------------------ *)
+
+(* One notifier section of the configuration, as far as templates go.  Configure parses the file named by
+   template-open - and, only if send-close is set, the one named by template-close - each on its own, and hands
+   the two template objects to the module; Notify executes the close one for stateGood and the open one otherwise
+   (http.go:162-168, email.go:174-178).  Modelled: this association.  Trusted: that ParseFiles on a fresh root gives
+   a set whose only member is the named file's template (so that Templates()[0] is it). *)
+Record modcfg := mkModcfg {
+  mc_name : string; mc_open : string; mc_close : string; mc_send_close : bool }.
+
+Definition load_templates (tbl : list (string * tmpl)) (cfg : list modcfg)
+  : list (string * (tmpl * option tmpl)) :=
+  map (fun m => (mc_name m,
+                 (lookup_tmpl tbl (mc_open m),
+                  if mc_send_close m then Some (lookup_tmpl tbl (mc_close m)) else None))) cfg.
+
+(* what module [name] renders for a close (good = true) or open notification about data d *)
+Definition module_renders (sch : schema) (tbl : list (string * tmpl)) (cfg : list modcfg)
+           (name : string) (good : bool) (d : value) : result (list piece) :=
+  match assoc name (load_templates tbl cfg) with
+  | None => Err "no such module"
+  | Some (topen, tclose) =>
+      if good then match tclose with Some t => exec sch t d | None => Err "no close template (send-close is off)" end
+      else exec sch topen d
+  end.
